@@ -298,6 +298,22 @@ def run(ck):
                 ck.verdict(T.path_has(ve, c.args[0], ".token"), "4", "T6-provenance", ve, "increment_version(slot.token)", "the bumped value is the slot's own token", "increment_version is not applied to the slot's token", site=ve.where(c.bb))
 
     slots_never_removed(ck, "4")
+    if ve is not None:
+        # a remembered search position (a "first vacant" hint) may not be set beyond the slot that is handed out: that slot
+        # is still vacant when vacant_entry returns, and the caller vacates it again when the registration fails
+        hint_bad = []
+        for i, j, st in ve.statements():
+            if st["s"] != "assign" or not st["pl"]["p"] or ve.is_cleanup(i):
+                continue
+            names = [p_["n"] for p_ in st["pl"]["p"] if isinstance(p_, dict) and "f" in p_]
+            if not names or names[-1] in ("sources", "token", "source") or not T.resolves_to_arg(ve, {"c": {"l": st["pl"]["l"], "p": [], "t": 0}}, 1) and st["pl"]["l"] != 1:
+                continue
+            ty = f.types[f.peel_refs(st["pl"]["t"])]["s"] if "t" in st["pl"] else ""
+            vals = [st["rv"]] if st["rv"]["r"] == "bin" else [ve.blocks[r_[1]]["st"][r_[2]]["rv"] for r_, p_ in (ve.resolve(st["rv"]["o"]) if st["rv"]["r"] == "use" else []) if r_[0] == "rv"]
+            for rv in vals:
+                if rv.get("r") == "bin" and rv.get("op", "").startswith("Add") and any((o.get("k") or {}).get("v") not in (None, 0) for o in (rv["a"], rv["b"])):
+                    hint_bad.append((i, names[-1]))
+        ck.verdict(not hint_bad, "4", "T6-provenance", ve, "search-hint<=handed-out-slot", "no search hint of the slot list is advanced past the slot that vacant_entry hands out", "vacant_entry stores a search position beyond the slot it hands out (%s): if the caller vacates that slot again (a failed registration) it lies below the hint and is never found - every rejected insertion leaks a slot" % ", ".join(sorted({n for _, n in hint_bad})), site=ve.where(hint_bad[0][0]) if hint_bad else ve.where())
     # the bump itself: generation + 1 modulo 2^16, id and sub-id untouched (decided bit-precisely by C20.4): a bump
     # that wraps early or carries into the id gives a reused slot the identity of another token
     common.import_results(ck, __import__("props.C20", fromlist=["x"]), "4", "increment_version", "4")
@@ -378,3 +394,9 @@ def run(ck):
     # composite wrappers: TransientSource forwards events only from its current, kept child, and a child that asked
     # to be disabled is not re-enabled behind the user's back (E3, shared with C18 / C07)
     common.import_e3(ck, "8", lambda inst: "asked to be disabled" in inst or "forwarded" in inst)
+    # ---- shared clauses demonstrated by seeding round 7 (the property broken from a distant module) --------------
+    from props import common as _c7
+    import importlib as _il
+    _m = lambda n: _il.import_module('props.' + n)
+    _c7.import_results(ck, _m("C05"), "1", "Poll::poll", "5")  # timers are popped against a clock read after the wait
+
